@@ -248,6 +248,10 @@ class Conv:
                     # long uniform host dicts {"k0": x, "k1": x, ...} travel as a bulk record
                     heap[a - 1] = {'t': 'dict', 'kbulk': len(ks), 'v': ref(v[ks[0]])}
                     return {'t': 'dict', 'addr': a}
+                if len(ks) >= 64 and all(type(k) is int for k in ks) and ks == list(range(len(ks))) and len(set(map(repr, v.values()))) == 1:
+                    # long uniform host dicts with the int keys 0 .. n-1
+                    heap[a - 1] = {'t': 'dict', 'ibulk': len(ks), 'v': ref(v[0])}
+                    return {'t': 'dict', 'addr': a}
                 heap[a - 1] = {'t': 'dict', 'items': [[_key(k), ref(x)] for k, x in v.items()]}
                 return {'t': 'dict', 'addr': a}
             return self.opaque(v)
